@@ -75,3 +75,52 @@ Proof.
   destruct r as [|[|r]]; simpl; [now apply IH| |lia].
   constructor; [|now apply IH]. intros Hin. apply H3. now apply Hsub.
 Qed.
+
+(* ---- the whole resampling step on exact rationals ---- *)
+Local Open Scope Q_scope.
+Fixpoint qmax (l : list Q) : Q := match l with [] => 0 | x :: r => let m := qmax r in if Qlt_le_dec m x then x else m end.
+(* posterior(equal_weight=True): relative weight x boost, one uniform draw per sample *)
+Definition multiplicities (ws : list Q) (boost : Q) (us : list Q) : list nat :=
+  let wm := qmax ws in map (fun wu => Z.to_nat (repeats (fst wu / wm * boost) (snd wu))) (combine ws us).
+
+Lemma qmax_ge l : forall x, In x l -> x <= qmax l.
+Proof.
+  induction l as [|y l IH]; simpl; intros x H; [contradiction|].
+  destruct (Qlt_le_dec (qmax l) y) as [Hlt|Hge]; destruct H as [->|H].
+  - apply Qle_refl.
+  - apply Qle_trans with (qmax l); [now apply IH|now apply Qlt_le_weak].
+  - exact Hge.
+  - now apply IH.
+Qed.
+Lemma rel_weight_range w wm boost : 0 <= w -> w <= wm -> 0 < wm -> 0 < boost -> boost <= 1 -> 0 <= w / wm * boost /\ w / wm * boost <= 1.
+Proof.
+  intros H0 H1 Hm Hb0 Hb1.
+  assert (A : 0 <= w / wm) by (apply Qle_shift_div_l; auto; lra).
+  assert (B : w / wm <= 1) by (apply Qle_shift_div_r; auto; lra).
+  split; [apply Qmult_le_0_compat; auto; lra|].
+  apply Qle_trans with (1 * boost); [apply Qmult_le_compat_r; auto; lra|lra].
+Qed.
+
+(* with boost at most one no sample is repeated, whatever the draws *)
+Theorem boost_le_1_no_repeat ws boost us : Forall (fun w => 0 <= w) ws -> 0 < qmax ws -> 0 < boost -> boost <= 1 -> Forall (fun u => 0 <= u) us ->
+  Forall (fun m => (m <= 1)%nat) (multiplicities ws boost us).
+Proof.
+  intros Hw Hm Hb0 Hb1 Hu. unfold multiplicities. apply Forall_forall. intros m Hin.
+  apply in_map_iff in Hin. destruct Hin as ((w & u) & <- & Hin). simpl.
+  pose proof (in_combine_l _ _ _ _ Hin) as Hw'. pose proof (in_combine_r _ _ _ _ Hin) as Hu'.
+  rewrite Forall_forall in Hw, Hu.
+  destruct (rel_weight_range w (qmax ws) boost (Hw w Hw') (qmax_ge ws w Hw') Hm Hb0 Hb1) as [R0 R1].
+  destruct (C14_boost_le_1 _ u R0 R1 (Hu u Hu')) as [Z0 Z1]. lia.
+Qed.
+Theorem no_repeat_rows {A} ws boost us (rows : list A) : Forall (fun w => 0 <= w) ws -> 0 < qmax ws -> 0 < boost -> boost <= 1 -> Forall (fun u => 0 <= u) us ->
+  NoDup rows -> NoDup (expand (multiplicities ws boost us) rows).
+Proof. intros. apply C14_nodup; auto. now apply boost_le_1_no_repeat. Qed.
+
+(* all returned weights are equal and normalised *)
+Fixpoint qsumq (l : list Q) : Q := match l with [] => 0 | x :: r => x + qsumq r end.
+Theorem equal_weights_normalised (n : nat) : (0 < n)%nat -> qsumq (repeat (1 / inject_Z (Z.of_nat n)) n) == 1.
+Proof.
+  intros Hn. assert (G : forall k c, qsumq (repeat c k) == inject_Z (Z.of_nat k) * c).
+  { induction k as [|k IH]; intros c; simpl repeat; simpl qsumq; [ring|]. rewrite IH, Nat2Z.inj_succ. unfold Z.succ. rewrite inject_Z_plus. change (inject_Z 1) with 1. ring. }
+  rewrite G. field. intros E. assert (0 < inject_Z (Z.of_nat n)) by (change 0 with (inject_Z 0); rewrite <- Zlt_Qlt; lia). lra.
+Qed.
